@@ -50,6 +50,10 @@ func (t *Trial) RecentEpochEvalTime() time.Time {
 func (t *Trial) BestOrganism(onlySolvers bool) (*genetics.Organism, bool) {
 	var orgs = make(genetics.Organisms, 0, len(t.Generations))
 	for _, e := range t.Generations {
+		if e.Champion == nil {
+			// the generation was recorded without champion
+			continue
+		}
 		if !onlySolvers {
 			// include every champion in each epoch
 			orgs = append(orgs, e.Champion)
